@@ -29,18 +29,22 @@ path, hdr, old, new = sys.argv[1:5]
 s = open(path).read()
 i = s.index(hdr)
 j = s.index(old, i)
-end = s.index("\nfunc ", i + 1)
+end = s.find("\nfunc ", i + 1)
+if end < 0:
+    end = len(s)
 assert j < end, "pattern not inside the function"
 s = s[:j] + new + s[j+len(old):]
 open(path, "w").write(s)
 EOF
+  [ $? -eq 0 ] || { echo "selftest: mutation of $1 failed"; exit 1; }
 }
 
 run() { # label, coq file stem (FfRoutines / FfgRoutines)
   local label="$1" stem="$2"
   echo "== $label"
-  if ! $BIN $R $S > $S/gen.out 2> $S/gen.err; then
-    echo "   limbgen: EXIT $? -- $(head -1 $S/gen.err)"; return
+  $BIN $R $S > $S/gen.out 2> $S/gen.err; local rc=$?
+  if [ $rc -ne 0 ]; then
+    echo "   limbgen: EXIT $rc -- $(head -1 $S/gen.err)"; return
   fi
   if diff -q $C/Gen/$stem.v $S/coq/Gen/$stem.v >/dev/null; then
     echo "   generated $stem.v: UNCHANGED"
@@ -117,6 +121,22 @@ fresh
 mutate ffg/element.go "func _addGeneric(" "bits.Add64(x[0], y[0], 0)" "bits.Add64(x[0], y[0], 1)"
 run "(x) ffg _addGeneric: carry-in 0 -> 1" FfgRoutines
 
+fresh
+mutate ff/element.go "func (z *Element) Inverse(" "v[1] = v[1]>>1 | v[2]<<63" "v[1] = v[1]>>1 | v[3]<<63"
+run "(xi) ff Inverse, loop 1: v[2]<<63 -> v[3]<<63" FfRoutines
+
+fresh
+mutate ff/element.go "func (z *Element) Inverse(" "if borrow == 1 {" "if borrow != 0 {"
+run "(xii) ff Inverse, tail: 'borrow == 1' -> 'borrow != 0' (same meaning, different text)" FfRoutines
+
+fresh
+mutate ff/element.go "func (z *Element) Inverse(" "z.Set(&r)" "z.Set(&s)"
+run "(xiii) ff Inverse, tail: returns s instead of r at the first exit" FfRoutines
+
+fresh
+mutate ff/element.go "func (z *Element) Inverse(" "r[3], _ = bits.Add64(r[3], 3486998266802970665, carry)" "r[3], _ = bits.Add64(r[3], 3486998266802970665, 0)"
+run "(xiv) ff Inverse, loop 2: carry-in dropped" FfRoutines
+
 echo
 echo "---- translator checks (limbgen must exit non-zero) ----"
 fresh
@@ -134,5 +154,11 @@ run "(B) ff _doubleGeneric: a for loop (unsupported statement)" FfRoutines
 fresh
 mutate ff/element.go "func _subGeneric(" "z[0], b = bits.Sub64(x[0], y[0], 0)" "z[0], b = bits.Sub64(x[0]+1, y[0], 0)"
 run "(C) ff _subGeneric: uint64 '+' (unsupported operator)" FfRoutines
+
+fresh
+mutate ff/element.go "func (z *Element) Inverse(" "		if bigger {" "		for borrow == 7 {
+		}
+		if bigger {"
+run "(D) ff Inverse: a third inner loop after straight-line code (unsupported loop shape)" FfRoutines
 
 rm -rf $R $S
